@@ -493,7 +493,11 @@ def check_sigint(ctx, r, idx):
     bps = width * channels
     w = {"case": case, "rc": r["rc"], "stderr": r["stderr"][-400:], "written": r["written"]}
     if r.get("twice"):
-        ctx.count("sigint_children_interrupted_twice")  # (the exit status after a second Ctrl-C is the interpreter's business)
+        ctx.count("sigint_children_interrupted_twice")  # (the exit status after a second Ctrl-C is the interpreter's business ...)
+        if "Fatal Python error" in r["stderr"]:
+            # ... but not this: the interpreter found worker threads still at work when it shut down and aborted the process
+            ctx.violation("interpreter-aborts-at-exit-with-worker-threads-still-running", w)
+            return
     elif r["rc"] != 0:
         ctx.violation("command-line-exit-status-nonzero-after-interrupt", w)
         return
